@@ -57,17 +57,23 @@ inductive Font where
   | type0 (base n : Nat) (extras : List (Nat × List Nat))
   deriving Repr, DecidableEq
 
-/-- `extraction_cmap.rs::decode_winansi` — NOTE the two arms `0x93 => '"'`, `0x94 => '"'`
-    (ASCII quotation mark, not U+201C/U+201D). -/
+/-- `extraction_cmap.rs::decode_winansi` -/
 def winansiImpl (b : Nat) : Nat :=
   match b with
   | 0x80 => 0x20AC | 0x82 => 0x201A | 0x83 => 0x0192 | 0x84 => 0x201E | 0x85 => 0x2026
   | 0x86 => 0x2020 | 0x87 => 0x2021 | 0x88 => 0x02C6 | 0x89 => 0x2030 | 0x8A => 0x0160
   | 0x8B => 0x2039 | 0x8C => 0x0152 | 0x8E => 0x017D | 0x91 => 0x2018 | 0x92 => 0x2019
-  | 0x93 => 0x22 | 0x94 => 0x22 | 0x95 => 0x2022 | 0x96 => 0x2013 | 0x97 => 0x2014
+  | 0x93 => 0x201C | 0x94 => 0x201D | 0x95 => 0x2022 | 0x96 => 0x2013 | 0x97 => 0x2014
   | 0x98 => 0x02DC | 0x99 => 0x2122 | 0x9A => 0x0161 | 0x9B => 0x203A | 0x9C => 0x0153
   | 0x9E => 0x017E | 0x9F => 0x0178
   | b => b
+
+/-- `decode_winansi` BEFORE the repair of C11-F2: the arms `0x93 => '"'`, `0x94 => '"'`
+    (ASCII quotation mark instead of U+201C/U+201D).  Kept as the regression the check must catch. -/
+def winansiImplOld (b : Nat) : Nat :=
+  match b with
+  | 0x93 => 0x22 | 0x94 => 0x22
+  | b => winansiImpl b
 
 /-- `text/encoding.rs::TextEncoding::WinAnsiEncoding.decode` (used only when no font is selected). -/
 def winansiEnc (b : Nat) : Nat :=
@@ -396,6 +402,22 @@ def sepList : Option Nat → List Nat
 
 /-- `append_bounded`; `none` = the budget refused the run (`*truncated = true`). -/
 def appendBounded (acc : List Nat) (sep : Option Nat) (txt : List Nat) (limit : Option Nat)
+    (mh : Bool) : Option (List Nat × Option Nat) :=
+  let fusion := mh && sep == some NL && acc.getLast? == some HY && !txt.isEmpty
+  let sep' := if fusion then none else sep
+  let base := if fusion then acc.dropLast else acc
+  let add := (match sep' with | some c => utf8Len1 c | none => 0) + utf8Len txt
+  let fits := match limit with
+    | some m => !(utf8Len base + add > m)
+    | none => true
+  if fits then
+    some (base ++ sepList sep' ++ txt, sep')
+  else none
+
+/-- `append_bounded` BEFORE the repair of C11-F4: the fusion test did not look at the text being
+    appended, so every line-wrap append with an EMPTY text popped one more hyphen.  Kept as the
+    regression the check must catch. -/
+def appendBoundedOld (acc : List Nat) (sep : Option Nat) (txt : List Nat) (limit : Option Nat)
     (mh : Bool) : Option (List Nat × Option Nat) :=
   let fusion := mh && sep == some NL && acc.getLast? == some HY
   let sep' := if fusion then none else sep
